@@ -28,7 +28,7 @@ PROPS["C11"].update({
 PROPS["C08"] = {
     "modules": ["OxiaVerif.Props.C08"],
     "facts": ["writeHoldsAppendLockAcrossAllocAndAppend", "writeChecksLeaderStatusBeforeAlloc", "trackerCommitsAtRequiredAcks",
-              "walRejectsNonContiguousOffsets", "walSyncCallbacksOnlyForFlushedEntries"],
+              "walRejectsNonContiguousOffsets", "walSyncCallbacksOnlyForFlushedEntries", "trackerCompletesWaitersUnderLock"],
     "trusted_base": [KERNEL, EXTRACT, CORR,
                      "Go mutexes/atomics: the tracker's methods are modelled as atomic events (each runs under q.Lock); the write pipeline as events write / sync / ack / newCursor",
                      "the WAL's group commit is tied by a regenerated fact about the order of the steps in runSync, not run under a race"],
@@ -233,7 +233,7 @@ PROPS["C06"] = {
 PROPS["C07"] = {
     "modules": ["OxiaVerif.Props.C07"],
     "facts": ["processWriteSingleBatchCommit", "versionIdPersistedAfterApply", "leaderReplayStartsAfterDbCommitOffset", "followerApplyStartsAfterCommitOffset",
-              "leaderReplayUsesWrapperCallbackAndEntryArgs", "followerApplyUsesWrapperCallbackAndEntryArgs", "followerApplyResetsPooledEntry",
+              "leaderReplayUsesWrapperCallbackAndEntryArgs", "followerApplyUsesWrapperCallbackAndEntryArgs", "followerApplyResetsPooledEntry", "trackerCompletesWaitersUnderLock",
               "pebbleRunsWithoutItsOwnWal", "walReaderServesOnlySyncedEntries"],
     "trusted_base": [KERNEL, EXTRACT, CORR, CLUSTER, DBTRUST,
                      "Pebble: a batch commit is atomic and a flush makes whole batches durable (so the database after a crash is the state after a whole number of entries); the crash itself is simulated by putting the database directory back to its on-disk content (no Pebble WAL, so the memtable is what is lost) while keeping the shard's WAL",
